@@ -861,3 +861,231 @@ Proof.
   - injection F as <- _.
     destruct (Hput x1 ltac:(sb) ltac:(lia) ltac:(lia)) as (Hp1 & _). split; [exact Hp1|apply Hlog].
 Qed.
+
+(** [retransmit] (a frame was lost) after the frame was taken out of the log. *)
+Lemma lost_hinv L L' k id a b fin s g s' r :
+  log_get k L = Some ((id, a, b, fin), L') -> HInvL L s g -> g.(g_phase) = 2 ->
+  do_lost (id, a, b, fin) (set_log L' s) = Some (s', r) ->
+  HInvL L' s' g /\ log s' = L'.
+Proof.
+  intros G H Hp F. unfold do_lost, ok in F. autorewrite with st in F.
+  destruct (log_get_spec _ _ _ _ G) as (Hl & Bl & _).
+  destruct (lookup id (send s)) as [[x|]|] eqn:Lk.
+  2:{ injection F as <- _. split; [|autorewrite with st; reflexivity].
+      eapply HInvL_ext; [|eapply hinv_take; eauto; intros z Hz; congruence]. hcore_eq. }
+  2:{ injection F as <- _. split; [|autorewrite with st; reflexivity].
+      eapply HInvL_ext; [|eapply hinv_take; eauto; intros z Hz; congruence]. hcore_eq. }
+  destruct (s_unsent x <? b); [discriminate|]. cbv zeta in F. injection F as <- _.
+  pose proof (h_buf _ _ _ H id x Lk) as Hb.
+  set (y := set_s_retx (rs_add a b (s_retx x)) (set_s_fin_pending (s_fin_pending x || fin) x)) in *.
+  assert (Hy : HInvL L' (put id y s) g).
+  { eapply HInvL_ext; [|apply (hinv_relog L L' s g id x y 0 H Lk)].
+    - unfold hcore, put. autorewrite with st. rewrite Z.add_0_r. reflexivity.
+    - intros i Hi. eapply feq_take_other; [exact G|congruence].
+    - intros j i a' b' fin' Hl'. left. apply Bl in Hl'. tauto.
+    - eapply live_id_facts; eauto.
+    - subst y. eapply bufok_lost; eauto.
+    - subst y. cbn [ucontrib]. autorewrite with st. lia.
+    - intros Hc. lia. }
+  split.
+  - destruct (is_pending x).
+    + eapply HInvL_ext; [|exact Hy]. hcore_eq.
+    + eapply HInvL_ext; [|exact Hy]. hcore_eq.
+  - destruct (is_pending x); unfold put, push_pending; autorewrite with st; reflexivity.
+Qed.
+
+Lemma reset_acked_hinv L s g id s' r :
+  HInvL L s g -> NoDup (keys s.(send)) -> do_reset_acked id s = Some (s', r) ->
+  HInvL L s' g /\ log s' = log s.
+Proof.
+  intros H N F. unfold do_reset_acked, ok in F.
+  destruct (lookup id (send s)) as [[x|]|] eqn:Lk; try (injection F as <- _; auto).
+  destruct (s_state x =? 3) eqn:E3; [|injection F as <- _; auto].
+  destruct (stream_freed _) as [s2|] eqn:SF; [|discriminate]. injection F as <- _.
+  unfold stream_freed in SF. destruct (send_streams _ <? 1); [discriminate|]. injection SF as <-.
+  split; [|autorewrite with st; reflexivity].
+  eapply HInvL_ext; [|apply (hinv_remove L s g id x H N Lk)].
+  - hcore_eq.
+  - cbn [ucontrib]. rewrite E3. reflexivity.
+Qed.
+
+(** One STREAM frame leaves: [poll_transmit]. *)
+Lemma vsize_bound x : 1 <= vsize x <= 8.
+Proof. unfold vsize. destr_if; lia. Qed.
+
+Lemma bufok_tx L id x m a b enc x1 fin :
+  BufOK L id x -> x.(s_state) <> 3 -> 17 <= m -> poll_transmit m x = (a, b, enc, x1) ->
+  BufOK (L ++ [Some (id, a, b, fin)]) id x1
+  /\ ucontrib (Some x1) = ucontrib (Some x)
+  /\ s_acks x1 = s_acks x /\ s_ulen x1 = s_ulen x /\ s_offset x1 = s_offset x
+  /\ s_state x1 = s_state x /\ (s_retx x = [] -> s_retx x1 = []).
+Proof.
+  intros [A B C D F] Hs Hm P. destruct (F Hs) as [A1 A2 A3 A4 A5 A6 A7 A8 A9 A10].
+  unfold base in *. set (bs := s_offset x - s_ulen x) in *.
+  unfold poll_transmit in P.
+  destruct (s_retx x) as [|[rs re] t] eqn:Rx.
+  - (* new data *)
+    set (u := s_unsent x) in *.
+    pose proof (vsize_bound u) as Hv.
+    set (m1 := if u =? 0 then m else m - vsize u) in *.
+    assert (Hm1 : 9 <= m1) by (subst m1; destr_if; lia).
+    set (enc0 := s_offset x - u <? m1) in *.
+    set (m2 := if enc0 then m1 - 8 else m1) in *.
+    assert (Hm2 : 1 <= m2) by (subst m2; destr_if; lia).
+    set (e := Z.min (s_offset x) (m2 + u)) in *.
+    injection P; intros Q1 Q2 Q3 Q4; clear P; subst a b x1; clear Q2.
+    assert (He : u <= e <= s_offset x) by (subst e; lia).
+    split; [|autorewrite with st; cbn [ucontrib]; autorewrite with st; repeat split; auto].
+    constructor; unfold base; autorewrite with st; fold bs; try lia.
+    + intros k a' b' fin' Hl. apply live_snoc in Hl. destruct Hl as [Hl|(_ & Hl)].
+      * destruct (D _ _ _ _ Hl). lia.
+      * injection Hl as -> ->. lia.
+    + intros _. constructor; unfold base; autorewrite with st; fold bs; rewrite ?Rx; auto.
+      * intros y Hc. specialize (A2 y Hc). lia.
+      * intros y Hc. destruct (covers_nil _ Hc).
+      * intros k a' b' fin' Hl Hlt. apply live_snoc in Hl. destruct Hl as [Hl|(_ & Hl)].
+        -- eapply A5; eauto.
+        -- injection Hl as -> ->. fold u. lia.
+      * intros k a' b' fin' y Hl Hy Hc. apply live_snoc in Hl. destruct Hl as [Hl|(_ & Hl)].
+        -- eapply A7; eauto.
+        -- injection Hl as -> ->. specialize (A2 y Hc). fold u in A2. lia.
+      * intros k a' b' fin' y Hl Hy Hc. destruct (covers_nil _ Hc).
+      * intros k k' a1 b1 f1 a2 b2 f2 y H1 H2 Hk Hy1 Hy2.
+        apply live_snoc in H1. apply live_snoc in H2.
+        destruct H1 as [H1|(K1 & H1)]; destruct H2 as [H2|(K2 & H2)].
+        -- eapply A9; eauto.
+        -- injection H2 as -> ->. destruct (D _ _ _ _ H1). fold u in H0. lia.
+        -- injection H1 as -> ->. destruct (D _ _ _ _ H2). fold u in H0. lia.
+        -- lia.
+      * rewrite flen_snoc. cbn [fcontrib rs_total]. rewrite Z.eqb_refl.
+        cbn [rs_total] in A10. fold u in A10. lia.
+  - (* retransmission of a lost range *)
+    pose proof (vsize_bound rs) as Hv.
+    set (m1 := if rs =? 0 then m else m - vsize rs) in *.
+    assert (Hm1 : 9 <= m1) by (subst m1; destr_if; lia).
+    set (enc0 := re - rs <? m1) in *.
+    set (m2 := if enc0 then m1 - 8 else m1) in *.
+    assert (Hm2 : 1 <= m2) by (subst m2; destr_if; lia).
+    set (e := Z.min re (m2 + rs)) in *.
+    cbn [W] in A3. destruct A3 as (R1 & R2 & R3).
+    assert (He : rs < e <= re) by (subst e; lia).
+    assert (Hre : re <= s_unsent x).
+    { assert (re - 1 < s_unsent x) by (apply A4; apply covers_cons; left; lia). lia. }
+    assert (Ht : forall y, covers t y -> re + 1 <= y) by (intros y; apply W_covers_ge; exact R3).
+    set (retx' := if e =? re then t else rs_add e re t) in *.
+    assert (Hc' : forall y, covers retx' y <-> covers t y \/ e <= y < re).
+    { intros y. subst retx'. destruct (e =? re) eqn:Ee.
+      - split; [auto|]. intros [H|H]; [exact H|lia].
+      - apply rs_add_covers. }
+    assert (Hsub : forall y, covers retx' y -> covers ((rs, re) :: t) y).
+    { intros y Hc. apply Hc' in Hc. apply covers_cons. destruct Hc; [auto|left; lia]. }
+    assert (Hw' : W bs retx').
+    { subst retx'. destruct (e =? re); [eapply W_weaken; [|exact R3]; lia|].
+      apply rs_add_W; [lia|]. eapply W_weaken; [|exact R3]. lia. }
+    assert (Htot : rs_total retx' = rs_total t + (re - e)).
+    { subst retx'. destruct (e =? re) eqn:Ee; [lia|].
+      eapply rs_add_total; [exact R3|lia|]. intros y Hy Hc. specialize (Ht y Hc). lia. }
+    injection P; intros Q1 Q2 Q3 Q4; clear P; subst a b x1; clear Q2.
+    split; [|autorewrite with st; cbn [ucontrib]; autorewrite with st; repeat split; auto; discriminate].
+    constructor; unfold base; autorewrite with st; fold bs; try lia.
+    + intros k a' b' fin' Hl. apply live_snoc in Hl. destruct Hl as [Hl|(_ & Hl)].
+      * apply (D _ _ _ _ Hl).
+      * injection Hl as -> ->. lia.
+    + intros _. constructor; unfold base; autorewrite with st; fold bs; fold retx'; auto.
+      * intros k a' b' fin' Hl Hlt. apply live_snoc in Hl. destruct Hl as [Hl|(_ & Hl)].
+        -- eapply A5; eauto.
+        -- injection Hl as -> ->. lia.
+      * intros y Ha Hc. apply (A6 y Ha). apply Hsub. exact Hc.
+      * intros k a' b' fin' y Hl Hy Hc. apply live_snoc in Hl. destruct Hl as [Hl|(_ & Hl)].
+        -- eapply A7; eauto.
+        -- injection Hl as -> ->. apply (A6 y Hc). apply covers_cons. left. lia.
+      * intros k a' b' fin' y Hl Hy Hc. apply live_snoc in Hl. destruct Hl as [Hl|(_ & Hl)].
+        -- eapply A8; [exact Hl|exact Hy|]. apply Hsub. exact Hc.
+        -- injection Hl as -> ->. apply Hc' in Hc. destruct Hc as [Hc|Hc]; [specialize (Ht y Hc)|]; lia.
+      * intros k k' a1 b1 f1 a2 b2 f2 y H1 H2 Hk Hy1 Hy2.
+        apply live_snoc in H1. apply live_snoc in H2.
+        destruct H1 as [H1|(K1 & H1)]; destruct H2 as [H2|(K2 & H2)].
+        -- eapply A9; eauto.
+        -- injection H2 as -> ->. eapply (A8 _ _ _ _ y H1 Hy1). apply covers_cons. left. lia.
+        -- injection H1 as -> ->. eapply (A8 _ _ _ _ y H2 Hy2). apply covers_cons. left. lia.
+        -- lia.
+      * rewrite flen_snoc. cbn [fcontrib]. rewrite Z.eqb_refl. rewrite Htot.
+        cbn [rs_total] in A10. lia.
+Qed.
+
+Definition KeysOK (s : State) : Prop :=
+  forall id, In id (keys s.(send)) ->
+    0 <= id /\ (id_init id = s.(side) -> id_index id < get_next (id_dir id) s).
+
+Lemma keysok_ext s s' :
+  side s' = side s -> keys (send s') = keys (send s) -> next_bi s' = next_bi s -> next_uni s' = next_uni s ->
+  KeysOK s -> KeysOK s'.
+Proof. intros E1 E2 E3 E4 K id. unfold get_next. rewrite E1, E2, E3, E4. apply K. Qed.
+
+Lemma tx_loop_hinv g L0 fuel : forall maxb buf s acc s' buf' fs okf,
+  HInvL (L0 ++ map (@Some Frame) acc) s g -> KeysOK s ->
+  tx_loop fuel maxb buf s acc = (s', buf', fs, okf) ->
+  HInvL (L0 ++ map (@Some Frame) fs) s' g /\ log s' = log s.
+Proof.
+  induction fuel as [|fuel IH]; intros maxb buf s acc s' buf' fs okf H K T; cbn [tx_loop] in T.
+  - injection T as <- _ <- _. auto.
+  - destruct (buf + 25 <? maxb) eqn:Eb; [|injection T as <- _ <- _; auto].
+    destruct (pendq s) as [|id q] eqn:Pq; [injection T as <- _ <- _; auto|].
+    assert (H1 : HInvL (L0 ++ map (@Some Frame) acc) (set_pendq q s) g)
+      by (eapply HInvL_ext; [|exact H]; hcore_eq).
+    assert (K1 : KeysOK (set_pendq q s))
+      by (eapply keysok_ext; [| | | |exact K]; autorewrite with st; reflexivity).
+    assert (Lg1 : log (set_pendq q s) = log s) by (autorewrite with st; reflexivity).
+    destruct (lookup id (send (set_pendq q s))) as [[x|]|] eqn:Lk.
+    2:{ destruct (IH _ _ _ _ _ _ _ _ H1 K1 T) as (A & B). split; [exact A|congruence]. }
+    2:{ destruct (IH _ _ _ _ _ _ _ _ H1 K1 T) as (A & B). split; [exact A|congruence]. }
+    destruct (s_state x =? 3) eqn:E3.
+    { destruct (IH _ _ _ _ _ _ _ _ H1 K1 T) as (A & B). split; [exact A|congruence]. }
+    destruct (poll_transmit (maxb - buf - 1 - vsize id) x) as [[[a b] enc] x1] eqn:P.
+    set (fin := (b =? s_offset x1) && ((s_state x1 =? 1) || (s_state x1 =? 2))) in *.
+    set (x2 := if fin then set_s_fin_pending false x1 else x1) in *.
+    pose proof (vsize_bound id) as Hv.
+    destruct (bufok_tx (L0 ++ map (@Some Frame) acc) id x (maxb - buf - 1 - vsize id) a b enc x1 fin
+                (h_buf _ _ _ H1 id x Lk) ltac:(lia) ltac:(lia) P)
+      as (Bx1 & Ux1 & Ea & Eu & Eo & Es & Er).
+    assert (Hsb : same_buf x1 x2) by (subst x2; destruct fin; sb).
+    set (L' := L0 ++ map (@Some Frame) (acc ++ [(id, a, b, fin)])).
+    assert (EL : L' = (L0 ++ map (@Some Frame) acc) ++ [Some (id, a, b, fin)])
+      by (subst L'; rewrite map_app, app_assoc; reflexivity).
+    assert (H2 : HInvL L' (put id x2 (set_pendq q s)) g).
+    { eapply HInvL_ext; [|apply (hinv_relog (L0 ++ map (@Some Frame) acc) L' (set_pendq q s) g id x x2 0 H1 Lk)].
+      - unfold hcore, put. autorewrite with st. rewrite Z.add_0_r. reflexivity.
+      - intros i Hi. rewrite EL. apply feq_snoc_other. congruence.
+      - intros k i a' b' fin' Hl. rewrite EL in Hl. apply live_snoc in Hl.
+        destruct Hl as [Hl|(_ & Hl)]; [auto|]. right. congruence.
+      - apply K1. eapply lookup_in_keys. exact Lk.
+      - rewrite EL. eapply bufok_same; [exact Hsb|exact Bx1].
+      - destruct Hsb as (S1 & S2 & S3 & S4 & S5 & S6). cbn [ucontrib] in *.
+        rewrite S2, S4, S6. lia.
+      - intros Hp. destruct (h_early _ _ _ H1 Hp id x Lk) as (X1 & X2 & X3).
+        destruct Hsb as (S1 & S2 & S3 & S4 & S5 & S6). rewrite S4, S5, S2, S1, Ea, Eu, Eo.
+        auto. }
+    match type of T with tx_loop _ _ _ ?st _ = _ =>
+      assert (H3 : HInvL L' st g /\ KeysOK st /\ log st = log s) end.
+    { destruct (is_pending x2).
+      - split; [eapply HInvL_ext; [|exact H2]; hcore_eq|]. split.
+        + eapply keysok_ext; [| | | |exact K1]; unfold put, push_pending; autorewrite with st;
+            try reflexivity. apply keys_update.
+        + unfold put, push_pending. autorewrite with st. reflexivity.
+      - split; [exact H2|]. split.
+        + eapply keysok_ext; [| | | |exact K1]; unfold put; autorewrite with st; try reflexivity.
+          apply keys_update.
+        + unfold put. autorewrite with st. reflexivity. }
+    destruct H3 as (H3 & K3 & Lg3).
+    destruct (IH _ _ _ _ _ _ _ _ H3 K3 T) as (A & B). split; [exact A|congruence].
+Qed.
+
+Lemma transmit_hinv s g maxb s' r :
+  HInv s g -> Inv s g -> do_transmit maxb s = Some (s', r) -> HInv s' g.
+Proof.
+  intros H I F. unfold do_transmit, ok in F. unfold HInv in *.
+  destruct (tx_loop _ maxb 0 s []) as [[[s1 buf] fs] okf] eqn:T.
+  assert (H0 : HInvL (log s ++ map (@Some Frame) []) s g) by (cbn [map]; rewrite app_nil_r; exact H).
+  destruct (tx_loop_hinv g (log s) _ _ _ _ _ _ _ _ _ H0 (i_keys _ _ I) T) as (A & B).
+  injection F as <- _. autorewrite with st. rewrite B. eapply HInvL_ext; [|exact A]. hcore_eq.
+Qed.
